@@ -1,6 +1,7 @@
 import FluentProofs.SpecLex
 import FluentProofs.SpecDedent
 import FluentProofs.ParserHoareExpr
+import FluentProofs.SpecFuel
 /-!
 # Refinement: where the grammar accepts, the parser model returns the grammar's tree (C02, T2/T3)
 
